@@ -441,7 +441,9 @@ Inductive gop :=
 | GHsDone (expiry : Z)
 | GRemoveRetired (now : Z)
 | GRemoveAll
-| GReplaceClosed (local : bool) (expiry : Z).
+| GReplaceClosed (local : bool) (expiry : Z)
+| GAddRunner.     (* AddConnRunner: a second transport is told the current IDs; nothing changes for the
+                     generator's state or for the first runner, whose callbacks the log records *)
 
 Definition gen_step (o : gop) (g : gen) : gen * rclass :=
   match o with
@@ -451,6 +453,7 @@ Definition gen_step (o : gop) (g : gen) : gen * rclass :=
   | GRemoveRetired now => (gen_remove_retired now g, ROk)
   | GRemoveAll => (gen_remove_all g, ROk)
   | GReplaceClosed l ex => (gen_replace l ex g, ROk)
+  | GAddRunner => (g, ROk)
   end.
 
 Definition gen_run (ops : list gop) (g : gen) : gen :=
